@@ -12,3 +12,4 @@ import Oas3Model.Props.C20
 import Oas3Model.Props.C12
 import Oas3Model.Props.C17
 import Oas3Model.Props.C15
+import Oas3Model.Props.C13
